@@ -17,7 +17,9 @@ Targets == {"U", "CS", "SS", "BD", "unknown"}
 CTypes  == {"unary", "unary-charset", "unary-upper", "json", "json-charset", "stream", "stream-param",
             "text", "none", "garbage", "unary-longer", "json-longer", "stream-longer", "unary-prefix"}
 Hdrs    == {"none", "valid-bin", "bad-bin"}
-Timeouts == {"none", "ok", "bad"}
+\* "expired": a GRPC-Timeout that has passed before the handler starts (1n): the
+\* handler still runs and the reply is as well-formed as any other
+Timeouts == {"none", "ok", "bad", "expired"}
 Bodies  == {"valid", "empty", "garbage", "truncated"}
 Carriers == {"server", "handleservices"}
 
